@@ -17,6 +17,7 @@ import RedoModel.PathsSemWire
 import RedoModel.LogFollowWire
 import RedoModel.ParWire
 import RedoModel.ParFWire
+import RedoModel.RowCacheWire
 import RedoModel.CyclesWire
 open RedoModel RedoModel.Wire
 
@@ -140,6 +141,7 @@ def respond (line : String) : String :=
   | ["logfollow-replay", evs] => LogFollowWire.respond evs
   | ["logfollow-run", insts, ph, evs] => LogFollowWire.respondRun insts ph evs
   | ["cycles", v, ops] => CyclesWire.respond v ops
+  | ["rowcache-replay", evs] => RowCacheWire.respond evs
   | ["par-replay", graph, pre, evs] => ParWire.respond graph pre evs
   | ["par-serial", graph, pre, tops] => ParWire.respondSerial graph pre tops
   | ["parf-replay", graph, kg, tops, evs] => ParFWire.respond graph kg tops evs
